@@ -2930,6 +2930,7 @@ class IntersperseDataset(Dataset):
             for dataset in self.input_datasets:
                 if item in dataset.keys():
                     return dataset[item]
+            raise KeyErrorCloseMatches(item, self.keys())
         else:
             return super().__getitem__(item)
 
